@@ -5,7 +5,7 @@ import "osmcheck/core"
 // c20Benign: behaviour-preserving rewrites of the anchored code (different classes); every rule must stay silent.
 func c20Benign() []core.Mutant {
 	var out []core.Mutant
-	for _, l := range [][]core.Mutant{c20Benign1(), c20Benign2(), c20Benign3(), c20Benign4(), c20Benign5()} {
+	for _, l := range [][]core.Mutant{c20Benign1(), c20Benign2(), c20Benign3(), c20Benign4(), c20Benign5(), c20Benign6()} {
 		out = append(out, l...)
 	}
 	return out
